@@ -544,6 +544,371 @@ pub fn relate_control(r: &Rng, m: TMsg) -> TMsg {
     m
 }
 
+// ---------------------------------------------------------------- values computed from other values
+
+fn crc16_x25(b: &[u8]) -> u16 {
+    let mut c: u16 = 0xffff;
+    for &x in b {
+        c ^= x as u16;
+        for _ in 0..8 {
+            c = if c & 1 != 0 { (c >> 1) ^ 0x8408 } else { c >> 1 };
+        }
+    }
+    !c
+}
+
+fn crc16_ccitt(b: &[u8]) -> u16 {
+    let mut c: u16 = 0xffff;
+    for &x in b {
+        c ^= (x as u16) << 8;
+        for _ in 0..8 {
+            c = if c & 0x8000 != 0 { (c << 1) ^ 0x1021 } else { c << 1 };
+        }
+    }
+    c
+}
+
+fn crc32_iso(b: &[u8]) -> u32 {
+    let mut c: u32 = 0xffff_ffff;
+    for &x in b {
+        c ^= x as u32;
+        for _ in 0..8 {
+            c = if c & 1 != 0 { (c >> 1) ^ 0xEDB8_8320 } else { c >> 1 };
+        }
+    }
+    !c
+}
+
+/// The check values a protocol stack computes over octets: octet sum and XOR, 16-bit sums (plain and the Internet
+/// checksum), Fletcher-16, Adler-32, the PPP frame check sequences (FCS-16 as sent, CRC-CCITT), CRC-32 in both octet
+/// orders, MD5, and std's DefaultHasher (SipHash-1-3, zero keys) over the octets and over the slice (length first).
+pub fn digests(b: &[u8]) -> Vec<Vec<u8>> {
+    use std::hash::{Hash, Hasher};
+    let mut v: Vec<Vec<u8>> = vec![];
+    let sum: u32 = b.iter().map(|&x| x as u32).sum();
+    v.push(vec![sum as u8]);
+    v.push(vec![b.iter().fold(0u8, |a, &x| a ^ x)]);
+    v.push((sum as u16).to_be_bytes().to_vec());
+    let mut ws: u32 = 0;
+    for c in b.chunks(2) {
+        ws += ((c[0] as u32) << 8) | (*c.get(1).unwrap_or(&0) as u32);
+    }
+    while ws >> 16 != 0 {
+        ws = (ws & 0xffff) + (ws >> 16);
+    }
+    v.push((!(ws as u16)).to_be_bytes().to_vec());
+    let (mut f1, mut f2) = (0u32, 0u32);
+    for &x in b {
+        f1 = (f1 + x as u32) % 255;
+        f2 = (f2 + f1) % 255;
+    }
+    v.push(vec![f2 as u8, f1 as u8]);
+    let (mut a1, mut a2) = (1u32, 0u32);
+    for &x in b {
+        a1 = (a1 + x as u32) % 65521;
+        a2 = (a2 + a1) % 65521;
+    }
+    v.push(((a2 << 16) | a1).to_be_bytes().to_vec());
+    v.push(crc16_x25(b).to_le_bytes().to_vec());
+    v.push(crc16_x25(b).to_be_bytes().to_vec());
+    v.push(crc16_ccitt(b).to_be_bytes().to_vec());
+    v.push(crc32_iso(b).to_le_bytes().to_vec());
+    v.push(crc32_iso(b).to_be_bytes().to_vec());
+    v.push(md5::compute(b).0.to_vec());
+    let mut h = std::collections::hash_map::DefaultHasher::new();
+    h.write(b);
+    v.push(h.finish().to_be_bytes().to_vec());
+    v.push(h.finish().to_le_bytes().to_vec());
+    let mut h = std::collections::hash_map::DefaultHasher::new();
+    b.hash(&mut h);
+    v.push(h.finish().to_be_bytes().to_vec());
+    v
+}
+
+/// a generator seeded by the content of a message (so that relating one message draws nothing from the stream's own
+/// generator and leaves every other case as it was)
+fn content_rng(text: &str, salt: &str) -> Rng {
+    let mut h: u64 = 0xcbf29ce484222325;
+    for b in text.bytes() {
+        h = (h ^ b as u64).wrapping_mul(0x100000001B3);
+    }
+    Rng::new(h, salt)
+}
+
+fn be16_at(d: &[u8], i: usize) -> u16 {
+    ((*d.get(i).unwrap_or(&0) as u16) << 8) | *d.get(i + 1).unwrap_or(&0) as u16
+}
+
+/// One control message in twelve gets a field computed from other fields: header ids or sequence numbers taken from a
+/// check value of the AVP octets; an octet-string (or the 16-octet Challenge Response) value that is a check value of
+/// the AVPs before it, of another AVP's value, or of the header ids followed by that value; a 16- or 32-bit value that
+/// is one of another AVP's value.
+pub fn digest_control(m: TMsg) -> TMsg {
+    let text = m.render();
+    let r = content_rng(&text, "digest-control");
+    if !r.chance(1, 12) {
+        return m;
+    }
+    if let TMsg::Control { len, mut tid, mut sid, mut ns, mut nr, mut avps } = m.clone() {
+        if avps.is_empty() {
+            // (no Message Type to stand first: nothing is added to such a message)
+            return m;
+        }
+        let recs: Vec<Vec<u8>> = avps.iter().map(|a| encode_avp(a).unwrap_or_default()).collect();
+        let region: Vec<u8> = recs.concat();
+        match r.below(4) {
+            0 => {
+                let d = r.pick(&digests(&region)).clone();
+                match r.below(4) {
+                    0 => tid = be16_at(&d, 0),
+                    1 => {
+                        tid = be16_at(&d, 0);
+                        sid = be16_at(&d, 2);
+                    }
+                    2 => ns = be16_at(&d, 0),
+                    _ => {
+                        ns = be16_at(&d, 0);
+                        nr = be16_at(&d, 2);
+                    }
+                }
+            }
+            1 | 2 => {
+                // an octet-string value computed from what stands before it / from another value
+                let cands: Vec<usize> = (0..avps.len()).filter(|&j| BYTE_KINDS.contains(&avps[j].kind.as_str()) || avps[j].kind == "ChallengeResponse").collect();
+                let j = if cands.is_empty() {
+                    avps.push(TAvp::new(if r.chance(1, 2) { "ChallengeResponse" } else { "Challenge" }, vec!["00".into()]));
+                    avps.len() - 1
+                } else {
+                    *r.pick(&cands)
+                };
+                let other: Vec<u8> = if j > 0 && r.chance(1, 2) {
+                    recs[..j.min(recs.len())].concat()
+                } else {
+                    let k = r.below(avps.len());
+                    let v = recs.get(k).map(|x| x.get(6..).unwrap_or(&[]).to_vec()).unwrap_or_default();
+                    match r.below(3) {
+                        0 => v,
+                        1 => [tid.to_be_bytes().to_vec(), v].concat(),
+                        _ => [vec![recs.first().and_then(|x| x.last().copied()).unwrap_or(0)], v].concat(),
+                    }
+                };
+                let d = if avps[j].kind == "ChallengeResponse" { md5::compute(&other).0.to_vec() } else { r.pick(&digests(&other)).clone() };
+                avps[j].args = vec![hex(&d)];
+            }
+            _ => {
+                let nums: Vec<usize> = (0..avps.len()).filter(|&j| U16_KINDS.contains(&avps[j].kind.as_str()) || U32_KINDS.contains(&avps[j].kind.as_str())).collect();
+                if let Some(&j) = nums.first() {
+                    let k = r.below(avps.len());
+                    let v = recs.get(k).map(|x| x.get(6..).unwrap_or(&[]).to_vec()).unwrap_or_default();
+                    let d = r.pick(&digests(&v)).clone();
+                    let x: u32 = d.iter().take(4).fold(0u32, |a, &b| (a << 8) | b as u32);
+                    avps[j].args = vec![if U16_KINDS.contains(&avps[j].kind.as_str()) { (x as u16).to_string() } else { x.to_string() }];
+                } else {
+                    let d = r.pick(&digests(&region)).clone();
+                    sid = be16_at(&d, 0);
+                }
+            }
+        }
+        return TMsg::Control { len, tid, sid, ns, nr, avps };
+    }
+    m
+}
+
+/// One data message in twelve: the payload followed (or preceded) by a check value of itself (a frame check sequence),
+/// an id or the sequence numbers taken from a check value of the payload, or the payload ending in a check value of the
+/// header fields.
+pub fn digest_data(m: TMsg) -> TMsg {
+    let text = m.render();
+    let r = content_rng(&text, "digest-data");
+    if !r.chance(1, 12) {
+        return m;
+    }
+    if let TMsg::Data { p, len, mut tid, mut sid, mut nsnr, off, mut data } = m.clone() {
+        let n = data.len();
+        match r.below(4) {
+            0 | 1 => {
+                let d = r.pick(&digests(&data[..n.saturating_sub(1).max(1).min(n)])).clone();
+                let d = if d.len() >= n { d[..n.saturating_sub(1)].to_vec() } else { d };
+                if !d.is_empty() {
+                    let body = data[..n - d.len()].to_vec();
+                    let dd = r.pick(&digests(&body)).clone();
+                    let dd = if dd.len() == d.len() { dd } else { digests(&body).into_iter().find(|x| x.len() == d.len()).unwrap_or(d.clone()) };
+                    data = if r.chance(3, 4) { [body, dd].concat() } else { [dd, body].concat() };
+                }
+            }
+            2 => {
+                let d = r.pick(&digests(&data)).clone();
+                match r.below(3) {
+                    0 => tid = be16_at(&d, 0),
+                    1 => {
+                        tid = be16_at(&d, 0);
+                        sid = be16_at(&d, 2);
+                    }
+                    _ => {
+                        if nsnr.is_some() {
+                            nsnr = Some((be16_at(&d, 0), be16_at(&d, 2)));
+                        } else {
+                            sid = be16_at(&d, 0);
+                        }
+                    }
+                }
+            }
+            _ => {
+                let hdr = [tid.to_be_bytes(), sid.to_be_bytes()].concat();
+                let d = r.pick(&digests(&hdr)).clone();
+                if d.len() < n {
+                    let k = n - d.len();
+                    data[k..].copy_from_slice(&d);
+                }
+            }
+        }
+        return TMsg::Data { p, len, tid, sid, nsnr, off, data };
+    }
+    m
+}
+
+/// One control message in twelve gets fields in an arithmetic relation other than equality (a + b = c, a = 2b, a xor b
+/// = c, a mod 16 = b, a · b overflowing 16 / 32 bits, two large values whose sum wraps), over the header fields, the
+/// 16- and 32-bit AVP values, the number of AVPs and the sizes.
+pub fn arith_control(m: TMsg) -> TMsg {
+    let text = m.render();
+    let r = content_rng(&text, "arith-control");
+    if !r.chance(1, 12) {
+        return m;
+    }
+    let total = encode_msg(&m).map(|b| b.len()).unwrap_or(0) as u16;
+    if let TMsg::Control { len, mut tid, mut sid, mut ns, mut nr, mut avps } = m.clone() {
+        let n = avps.len() as u16;
+        let nums: Vec<usize> = (0..avps.len()).filter(|&j| U16_KINDS.contains(&avps[j].kind.as_str()) || U32_KINDS.contains(&avps[j].kind.as_str())).collect();
+        let set_num = |avps: &mut Vec<TAvp>, j: usize, x: u32| {
+            avps[j].args = vec![if U16_KINDS.contains(&avps[j].kind.as_str()) { (x as u16).to_string() } else { x.to_string() }];
+        };
+        match r.below(10) {
+            0 => nr = ns.wrapping_add(tid),
+            1 => sid = tid.wrapping_mul(2),
+            2 => ns = tid ^ sid,
+            3 => sid = tid % 16,
+            4 => {
+                tid = total.wrapping_sub(sid);
+            }
+            5 => {
+                // two large values whose sum / product leaves 16 bits
+                tid = 0xff00 | (r.next() as u16 & 0xff);
+                sid = 0x10000u32.wrapping_sub(tid as u32) as u16;
+                ns = 0x8000 | (r.next() as u16 & 0x7fff);
+                nr = ns;
+            }
+            6 => {
+                if nums.len() >= 2 {
+                    let a: u32 = avps[nums[0]].args[0].parse().unwrap_or(0);
+                    let x = match r.below(4) {
+                        0 => a.wrapping_mul(2),
+                        1 => a / 2,
+                        2 => a.wrapping_add(tid as u32),
+                        _ => a ^ sid as u32,
+                    };
+                    set_num(&mut avps, nums[1], x);
+                } else if let Some(&j) = nums.first() {
+                    set_num(&mut avps, j, (tid as u32).wrapping_add(sid as u32));
+                }
+            }
+            7 => {
+                if let Some(&j) = nums.first() {
+                    let x = match r.below(4) {
+                        0 => (n as u32) * (tid as u32),
+                        1 => (total as u32).saturating_sub(12),
+                        2 => (ns as u32) << 16 | nr as u32,
+                        _ => (tid as u32) * (sid as u32),
+                    };
+                    set_num(&mut avps, j, x);
+                } else {
+                    ns = n;
+                    nr = total;
+                }
+            }
+            8 => {
+                nr = ns.wrapping_sub(1);
+                sid = tid.wrapping_add(n);
+            }
+            _ => {
+                tid = n.wrapping_mul(total);
+                sid = !tid;
+            }
+        }
+        return TMsg::Control { len, tid, sid, ns, nr, avps };
+    }
+    m
+}
+
+/// One control message in twelve is given a shape: many AVPs of one kind (7, 8, 9, 15, 16, 17, 31, 32, 33, 64 of them),
+/// a particular AVP moved to the 3rd / 7th / 8th / last place, a filler in front of an AVP so that it starts at offset
+/// 64, 128, 256, 512 or 1024 of the message, two variable-length values made equally long, or one made exactly as long
+/// as everything else in the message together.
+pub fn shape_control(m: TMsg) -> TMsg {
+    let text = m.render();
+    let r = content_rng(&text, "shape-control");
+    if !r.chance(1, 12) {
+        return m;
+    }
+    if let TMsg::Control { len, tid, sid, ns, nr, mut avps } = m.clone() {
+        if avps.len() < 2 {
+            return m;
+        }
+        let is_var = |a: &TAvp| BYTE_KINDS.contains(&a.kind.as_str()) || STR_KINDS.contains(&a.kind.as_str());
+        match r.below(5) {
+            0 => {
+                let j = 1 + r.below(avps.len() - 1);
+                let k = *r.pick(&[7usize, 8, 9, 15, 16, 17, 31, 32, 33, 64]);
+                let a = avps[j].clone();
+                if encode_avp(&a).map(|b| b.len()).unwrap_or(2000) <= 40 {
+                    for _ in 0..k - 1 {
+                        avps.insert(j, a.clone());
+                    }
+                }
+            }
+            1 => {
+                let j = 1 + r.below(avps.len() - 1);
+                let a = avps.remove(j);
+                let want = *r.pick(&[2usize, 6, 7, 1000]);
+                while avps.len() < want.min(9) {
+                    avps.push(TAvp::new("ReceiveWindowSize", vec![(avps.len() as u16).to_string()]));
+                }
+                let at = want.min(avps.len());
+                avps.insert(at, a);
+            }
+            2 => {
+                let j = 1 + r.below(avps.len() - 1);
+                let before: usize = 12 + avps[..j].iter().map(|a| encode_avp(a).map(|b| b.len()).unwrap_or(0)).sum::<usize>();
+                let target = *r.pick(&[64usize, 128, 256, 512, 1024]);
+                if before + 7 <= target && target - before - 6 <= 1017 {
+                    avps.insert(j, TAvp::new("Challenge", vec![hex(&r.bytes(target - before - 6))]));
+                }
+            }
+            3 => {
+                let vars: Vec<usize> = (1..avps.len()).filter(|&j| is_var(&avps[j])).collect();
+                if vars.len() >= 2 {
+                    let l = unhex(&avps[vars[0]].args[0]).map(|b| b.len()).unwrap_or(1).max(1);
+                    let kind = avps[vars[1]].kind.clone();
+                    let v = if STR_KINDS.contains(&kind.as_str()) { (0..l).map(|i| b'a' + (i % 26) as u8).collect() } else { r.bytes(l) };
+                    avps[vars[1]].args = vec![hex(&v)];
+                } else {
+                    let l = 1 + r.below(20);
+                    avps.push(TAvp::new("HostName", vec![hex(&r.bytes(l))]));
+                    avps.push(TAvp::new("Challenge", vec![hex(&r.bytes(l))]));
+                }
+            }
+            _ => {
+                let rest: usize = 12 + avps.iter().map(|a| encode_avp(a).map(|b| b.len()).unwrap_or(0)).sum::<usize>();
+                if rest <= 1017 {
+                    avps.push(TAvp::new("Challenge", vec![hex(&r.bytes(rest))]));
+                }
+            }
+        }
+        return TMsg::Control { len, tid, sid, ns, nr, avps };
+    }
+    m
+}
+
 /// The `length` member of a control message value is not part of what is encoded (the encoder counts for itself); here
 /// it is made to look meaningful: the true size, the size plus what the writer already holds, what the writer holds,
 /// the size of the AVPs alone.
@@ -597,7 +962,7 @@ pub fn gen_control(r: &Rng, max_avps: usize, big: bool) -> TMsg {
         }
     }
     let m = TMsg::Control { len: if r.chance(1, 2) { 0 } else { r.u16x() }, tid: r.u16x(), sid: r.u16x(), ns: r.u16x(), nr: r.u16x(), avps };
-    relate_control(r, m)
+    shape_control(arith_control(digest_control(relate_control(r, m))))
 }
 
 pub fn data_header_len(len: bool, nsnr: bool, off: bool) -> usize {
@@ -659,7 +1024,7 @@ pub fn gen_data(r: &Rng, with_offset: bool) -> TMsg {
             return TMsg::Data { p, len, tid, sid, nsnr, off, data: d };
         }
     }
-    m
+    digest_data(m)
 }
 
 /// a data message as a caller may build it: the Length field absent, true, off by a little, or anything at all
@@ -1947,6 +2312,24 @@ fn hide_args(r: &Rng, value_len: usize) -> (Vec<u8>, Vec<u8>, Vec<u8>, Vec<u8>) 
             }
         }
         _ => {}
+    }
+    // the arguments computed from each other (one case in twelve, decided by the arguments themselves): the secret a
+    // check value of the random vector, the vector one of the secret, the padding one of the secret
+    let cr = content_rng(&format!("{} {} {}", hex(&s), hex(&rv), hex(&lp)), "digest-hide");
+    if cr.chance(1, 12) {
+        match cr.below(3) {
+            0 => s = cr.pick(&digests(&rv)).clone(),
+            1 => {
+                let d = md5::compute(&s).0;
+                return (s, d[..4].to_vec(), lp, ap);
+            }
+            _ => {
+                let d = cr.pick(&digests(&s)).clone();
+                for (i, x) in lp.iter_mut().enumerate() {
+                    *x = d[i % d.len()];
+                }
+            }
+        }
     }
     (s, rv, lp, ap)
 }
